@@ -14,16 +14,29 @@ which the input is expressed" does not exist in the model; that `DateTime<Tz>` v
 zones are first converted (`with_timezone`) is checked by the correspondence suite (`tz.*` ops
 build the input in a different zone).
 
-Status of the clauses (details at each theorem), for the code with the walk back in
-`TzLocation::datetime` (minute loop, then back second by second while the local time still exists):
-* `naive`/`datetime` laws: proved for every `ZoneOK` table.
-* "first valid instant after it": `datetime_gap_first_valid` for every whole-second `n` in a table
-  with transitions on whole seconds (`WholeSeconds`, every chrono-tz table) — no alignment of gaps on
-  the minute grid needed; in general `datetime_gap` gives the exact value `T + (n - b) mod 1 s`.
+Status of the clauses (details at each theorem), for the code of /repo e1e5204: `TzLocation::datetime`
+takes `latest()` of the requested time when it exists; otherwise it steps forward minute by minute,
+takes `earliest()` of the first time that exists and walks back second by second (with
+`earliest()`) while the local time still exists.
+* two hypotheses on the table, both decidable and evaluated by the driver on every table:
+  `ZoneOK` (sorted, `|offset| < 1 day`, every span a minute longer than the jumps at its two ends
+  together) and the weaker `ZoneOrdered` (sorted, local spans in order: neither their starts nor their
+  ends go backwards, a span that starts with a forward jump lasts a minute) which allows a gap
+  directly followed by a fold (`lisbon1992`: Europe/Lisbon 1992-09-27) — `ZoneOK.toOrdered`.
+* `naive`/`datetime` laws on existing local times: every sorted table (stated for `ZoneOK`).
+* "first valid instant after it": `FirstValidAfter z n T` (`T` shows a time after `n`, no time in
+  between exists, no earlier instant shows a time at/after `n`; unique: `firstValidAfter_unique`).
+  `datetime_gap_first_valid_ordered`: for every `ZoneOrdered` table with transitions on whole seconds
+  (`WholeSeconds`, every chrono-tz table) and every whole-second `n`; in general
+  `datetime_gap_ordered` gives the exact value `T + (n - b) mod 1 s`.  The `ZoneOK` forms
+  (`datetime_gap`, `datetime_gap_first_valid`) add that the first valid time is shown only once.
+  Before e1e5204 the `ZoneOrdered` forms were FALSE (`latest()` after a gap: one hour late in Lisbon,
+  former finding class `zone-not-ok` = `gapLandsInFold`); witness `datetime_gap_then_fold_witness`.
 * `datetime_mono` is still FALSE for arguments with different sub-second phases inside a gap
-  (`datetime_mono_false`); true forms: `datetime_mono_aligned`, `datetime_mono_congr`.
+  (`datetime_mono_false`); true forms: `datetime_mono_aligned(_ordered)`, `datetime_mono_congr(_ordered)`.
 * localized = naive evaluation: `iter_range`, `next_change` and `state` (`state_localized`) in full.
-* bounds never go backwards: `bounds_never_go_backwards`, FULL for `WholeSeconds` tables.
+* bounds never go backwards: `bounds_never_go_backwards_ordered`, FULL for `ZoneOrdered ∧ WholeSeconds`
+  tables (`bounds_never_go_backwards` is its `ZoneOK` instance).
   Bounds can be EQUAL: D16 (`D16_empty_interval_witness`, class `localSpanInGap`: `D16_class`) —
   a C02 matter (non-empty intervals), not a C09 violation.
 * Representability hypotheses `instMin ≤ n` appear because the walk back subtracts seconds
@@ -55,15 +68,38 @@ theorem ZoneOK.sorted {z : Zone} (h : ZoneOK z) : sorted z = true := by
 theorem ZoneOK.spaced {z : Zone} (h : ZoneOK z) : spaced z = true := by
   unfold ZoneOK zoneOK at h; simp only [Bool.and_eq_true] at h; exact h.2
 
-theorem valid_iff_latest {z : Zone} (hz : ZoneOK z) (n : Int) : Valid z n ↔ latest? z n ≠ none := by
+/-- the weaker well-formedness: transitions strictly increasing and local spans in order — the local
+starts and the local ends of consecutive spans never go backwards and a span that starts with a
+forward jump lasts at least a minute (decidable: `zoneOrdered`).  Unlike `ZoneOK` it allows a gap
+directly followed by a fold (the first valid time after the gap is then ambiguous), two folds or a
+fold and a gap within the hour: `lisbon1992` below. -/
+def ZoneOrdered (z : Zone) : Prop := zoneOrdered z = true
+instance (z : Zone) : Decidable (ZoneOrdered z) := by unfold ZoneOrdered; infer_instance
+
+theorem ZoneOrdered.sorted {z : Zone} (h : ZoneOrdered z) : sorted z = true := by
+  unfold ZoneOrdered zoneOrdered at h; simp only [Bool.and_eq_true] at h; exact h.1
+theorem ZoneOrdered.ordered {z : Zone} (h : ZoneOrdered z) : spansOrdered z = true := by
+  unfold ZoneOrdered zoneOrdered at h; simp only [Bool.and_eq_true] at h; exact h.2
+
+/-- every `ZoneOK` table is `ZoneOrdered` -/
+theorem ZoneOK.toOrdered {z : Zone} (h : ZoneOK z) : ZoneOrdered z := by
+  unfold ZoneOrdered zoneOrdered
+  rw [h.sorted, spansOrdered_of_spaced h.spaced]
+  rfl
+
+theorem valid_iff_latest_of_sorted {z : Zone} (hs : sorted z = true) (n : Int) :
+    Valid z n ↔ latest? z n ≠ none := by
   unfold Valid
-  rw [Ne, latest_none_iff hz.sorted]
+  rw [Ne, latest_none_iff hs]
   constructor
   · intro ⟨u, hu⟩ h; exact h u hu
   · intro h
     apply Classical.byContradiction
     intro hc
     exact h (fun u hu => hc ⟨u, hu⟩)
+
+theorem valid_iff_latest {z : Zone} (hz : ZoneOK z) (n : Int) : Valid z n ↔ latest? z n ≠ none :=
+  valid_iff_latest_of_sorted hz.sorted n
 
 /-! ## the zone model: `fromLocal` is chrono's `from_local_datetime` -/
 
@@ -119,9 +155,104 @@ theorem datetime_picks_later_when_ambiguous {z : Zone} (hz : ZoneOK z) {n u₁ u
 def WholeSeconds (z : Zone) : Prop := secondsAligned z = true
 instance (z : Zone) : Decidable (WholeSeconds z) := by unfold WholeSeconds; infer_instance
 
-/-- `n` does not exist: it is skipped by a forward jump at instant `T`, landing on local time `b`.
-No local time in `[n, b)` exists, `b` is shown at `T` only — so `T` is the first valid instant
-after `n` — and `datetime` (minute loop + walk back by seconds) returns `T + (n - b) mod 1 s`:
+/-- "the first valid instant after" a local time `n` that does not exist: the clock at `T` shows a
+time after `n`, no local time from `n` up to that time exists, and no instant before `T` shows a time
+at/after `n`.  (So the time shown at `T` is the smallest existing local time after `n`, and `T` is
+the first instant showing it — also when it is shown again after a fold.) -/
+def FirstValidAfter (z : Zone) (n T : Int) : Prop :=
+  n < naive z T ∧ (∀ m, n ≤ m → m < naive z T → ¬ Valid z m) ∧ (∀ u, n ≤ naive z u → T ≤ u)
+
+/-- there is at most one such instant -/
+theorem firstValidAfter_unique {z : Zone} {n T T' : Int} (h : FirstValidAfter z n T)
+    (h' : FirstValidAfter z n T') : T = T' := by
+  have h1 := h.2.2 T' (Int.le_of_lt h'.1)
+  have h2 := h'.2.2 T (Int.le_of_lt h.1)
+  omega
+
+/-- `n` does not exist, table merely `ZoneOrdered` (a fold may follow the gap directly): `n` is
+skipped by a forward jump at instant `T`, landing on local time `b`.  No local time in `[n, b)`
+exists, `b` is shown at `T` and not before, every earlier instant shows a time before the gap and
+every later one a time at/after `b` — and `datetime` (minute loop, `earliest()`, walk back by
+seconds) returns `T + (n - b) mod 1 s`: `T` itself whenever `n` and `b` are whole seconds, otherwise
+`T` plus the sub-second phase. -/
+theorem datetime_gap_ordered {z : Zone} (hz : ZoneOrdered z) (hend : EndsBefore z instMax) {n : Int}
+    (hmin : instMin ≤ n) (hn : ¬ Valid z n) :
+    ∃ T a b, gapOf z n = some (T, a, b) ∧ a ≤ n ∧ n < b ∧
+      (∀ m, n ≤ m → m < b → ¬ Valid z m) ∧
+      naive z T = b ∧ (∀ u, naive z u = b → T ≤ u) ∧
+      (∀ u, u < T → naive z u < a) ∧ (∀ u, T ≤ u → b ≤ naive z u) ∧
+      datetime z n = .ok (T + (n - b) % nsPerSec) ∧
+      0 ≤ (n - b) % nsPerSec ∧ (n - b) % nsPerSec < nsPerSec := by
+  have hl : latest? z n = none := by
+    apply Classical.byContradiction
+    intro hc
+    exact hn ((valid_iff_latest_of_sorted hz.sorted n).mpr hc)
+  obtain ⟨T, a, b, g1, g2, g3, g4, g5, _, g6⟩ := datetime_gap_core hz.sorted hz.ordered hl hend hmin
+  have hT := earliest_spec hz.sorted (g5 0 (by omega) (by simp [nsPerMin]))
+  simp only [Int.add_zero] at hT
+  refine ⟨T, a, b, g1, g2, g3, ?_, hT.1, hT.2, ?_, ?_, g6, emod_sec_nonneg _, emod_sec_lt _⟩
+  · intro m h1 h2 hv
+    exact (valid_iff_latest_of_sorted hz.sorted m).mp hv (g4 m h1 h2)
+  · intro u hu
+    exact gap_below hz.sorted hz.ordered g1 hu
+  · intro u hu
+    exact gap_above hz.sorted hz.ordered g1 hu
+
+/-- the class predicate's gap test is exact for `ZoneOrdered` tables -/
+theorem gapOf_isSome_iff_not_valid_ordered {z : Zone} (hz : ZoneOrdered z) (n : Int) :
+    (gapOf z n).isSome = true ↔ ¬ Valid z n := by
+  rw [gapOf_isSome_iff hz.sorted hz.ordered, valid_iff_latest_of_sorted hz.sorted]
+  simp
+
+/-- the run-time oracle's reading of "first valid instant" (`gapOf`, `OH/Driver/Tz.lean`) is the
+definition: the forward jump `gapOf z n` finds is the first valid instant after `n` -/
+theorem firstValidAfter_of_gapOf {z : Zone} (hz : ZoneOrdered z) {n T a b : Int}
+    (hg : gapOf z n = some (T, a, b)) : FirstValidAfter z n T ∧ naive z T = b := by
+  have hl : latest? z n = none := (gapOf_isSome_iff hz.sorted hz.ordered n).mp (by rw [hg]; rfl)
+  obtain ⟨T', a', b', g1, g2, g3, _, g5, g6, _⟩ := gap_of_none hz.sorted hz.ordered hl
+  rw [hg] at g1
+  cases g1
+  have hT := (earliest_spec hz.sorted (g6 0 (by omega) (by simp [nsPerMin]))).1
+  simp only [Int.add_zero] at hT
+  refine ⟨⟨by omega, ?_, ?_⟩, hT⟩
+  · intro m h1 h2 hv
+    rw [hT] at h2
+    exact (valid_iff_latest_of_sorted hz.sorted m).mp hv (g5 m h1 h2)
+  · intro u hu
+    exact gap_le_valid hz.sorted hz.ordered hg g2 hu rfl
+
+/-- the value of `datetime` on the class `gapOf z n = some (T, a, b)`, `ZoneOrdered` tables -/
+theorem datetime_gap_value_ordered {z : Zone} (hz : ZoneOrdered z) (hend : EndsBefore z instMax)
+    {n T a b : Int} (hmin : instMin ≤ n) (hg : gapOf z n = some (T, a, b)) :
+    datetime z n = .ok (T + (n - b) % nsPerSec) := by
+  have hn : ¬ Valid z n := (gapOf_isSome_iff_not_valid_ordered hz n).mp (by rw [hg]; rfl)
+  obtain ⟨T', a', b', g1, _, _, _, _, _, _, _, g7, _, _⟩ := datetime_gap_ordered hz hend hmin hn
+  rw [hg] at g1
+  cases g1
+  exact g7
+
+/-- **the full clause — "the first valid instant after it"** — for every whole-second `n` in a
+whole-second `ZoneOrdered` table, in particular when clocks are set back right after the gap
+(Europe/Lisbon 1992, Europe/Moscow 1919, …: the first valid time is then ambiguous and the FIRST of
+its two instants is returned).  False before /repo e1e5204 (`latest()`: one hour late). -/
+theorem datetime_gap_first_valid_ordered {z : Zone} (hz : ZoneOrdered z) (hsec : WholeSeconds z)
+    (hend : EndsBefore z instMax) {n : Int} (hmin : instMin ≤ n) (hn : ¬ Valid z n)
+    (hws : n % nsPerSec = 0) :
+    ∃ T, FirstValidAfter z n T ∧ datetime z n = .ok T := by
+  obtain ⟨T, a, b, hg⟩ := Option.isSome_iff_exists.mp ((gapOf_isSome_iff_not_valid_ordered hz n).mpr hn)
+  refine ⟨T, (firstValidAfter_of_gapOf hz hg).1, ?_⟩
+  have hb : b % nsPerSec = 0 := by
+    apply gap_end_seconds (gapOf_eq z n ▸ hg)
+    have h := hsec
+    unfold WholeSeconds secondsAligned at h
+    simp only [List.all_eq_true, decide_eq_true_eq] at h
+    exact h
+  have : (n - b) % nsPerSec = 0 := by simp only [nsPerSec] at *; omega
+  rw [datetime_gap_value_ordered hz hend hmin hg, this, Int.add_zero]
+
+/-- `n` does not exist, `ZoneOK` table: it is skipped by a forward jump at instant `T`, landing on
+local time `b`.  No local time in `[n, b)` exists, `b` is shown at `T` only — so `T` is the first valid
+instant after `n` — and `datetime` (minute loop + walk back by seconds) returns `T + (n - b) mod 1 s`:
 `T` itself whenever `n` and `b` are whole seconds, otherwise `T` plus the sub-second phase. -/
 theorem datetime_gap {z : Zone} (hz : ZoneOK z) (hend : EndsBefore z instMax) {n : Int}
     (hmin : instMin ≤ n) (hn : ¬ Valid z n) :
@@ -134,18 +265,16 @@ theorem datetime_gap {z : Zone} (hz : ZoneOK z) (hend : EndsBefore z instMax) {n
     apply Classical.byContradiction
     intro hc
     exact hn ((valid_iff_latest hz n).mpr hc)
-  obtain ⟨T, a, b, g1, g2, g3, g4, g5, g6⟩ := datetime_gap_core hz.sorted hz.spaced hl hend hmin
+  obtain ⟨T, a, b, g1, g2, g3, g4, g5, g5', g6⟩ :=
+    datetime_gap_core hz.sorted hz.toOrdered.ordered hl hend hmin
   refine ⟨T, a, b, g1, g2, g3, ?_, ?_, ?_, g6, emod_sec_nonneg _, emod_sec_lt _⟩
   · intro m h1 h2 hv
     exact (valid_iff_latest hz m).mp hv (g4 m h1 h2)
   · have := g5 0 (by omega) (by simp [nsPerMin])
     simp only [Int.add_zero] at this
-    exact (latest_spec hz.sorted this).1
+    exact (earliest_spec hz.sorted this).1
   · intro u hu
-    obtain ⟨T', a', b', k1, k2, k3, k4, k5, k6⟩ := gap_of_none hz.sorted hz.spaced hl
-    rw [g1] at k1
-    cases k1
-    have := k6 0 (by omega) (by simp [nsPerMin])
+    have := g5' hz.spaced 0 (by omega) (by simp [nsPerMin])
     simp only [Int.add_zero] at this
     have hm := (mem_fromLocal hz.sorted b u).mpr hu
     rw [this] at hm
@@ -154,16 +283,8 @@ theorem datetime_gap {z : Zone} (hz : ZoneOK z) (hend : EndsBefore z instMax) {n
 /-- the value of `datetime` on the class `gapOf z n = some (T, a, b)` -/
 theorem datetime_gap_value {z : Zone} (hz : ZoneOK z) (hend : EndsBefore z instMax) {n T a b : Int}
     (hmin : instMin ≤ n) (hg : gapOf z n = some (T, a, b)) :
-    datetime z n = .ok (T + (n - b) % nsPerSec) := by
-  have hn : ¬ Valid z n := by
-    intro hv
-    apply (valid_iff_latest hz n).mp hv
-    apply (gapOf_isSome_iff hz.sorted hz.spaced n).mp
-    rw [hg]; rfl
-  obtain ⟨T', a', b', g1, _, _, _, _, _, g7, _, _⟩ := datetime_gap hz hend hmin hn
-  rw [hg] at g1
-  cases g1
-  exact g7
+    datetime z n = .ok (T + (n - b) % nsPerSec) :=
+  datetime_gap_value_ordered hz.toOrdered hend hmin hg
 
 /-- the full clause — "the first valid instant after it" — for every whole-second `n` in a
 whole-second table: no alignment of the gap on the minute grid is needed any more -/
@@ -191,12 +312,57 @@ def paris2024 : Zone := ⟨3600, [(63847530000000000000, 7200), (638656740000000
 /-- Africa/Monrovia around 1972: -0:44:30, then UTC from 1972-01-07 00:44:30 UTC -/
 def monrovia1972 : Zone := ⟨-2670, [(62199276270000000000, 0)]⟩
 
+/-- Europe/Lisbon around 1992 (Portugal moved from WET/WEST to CET/CEST): +0 h; +1 h from
+1992-03-29 01:00 UTC; +2 h from 1992-09-27 00:00 UTC (a gap: 01:00–02:00 local is skipped);
++1 h again from 1992-09-27 01:00 UTC (a fold: 02:00–03:00 local is shown twice — the whole hour
+after the gap); +2 h from 1993-03-28 01:00 UTC -/
+def lisbon1992 : Zone :=
+  ⟨0, [(62837514000000000000, 3600), (62853235200000000000, 7200), (62853238800000000000, 3600),
+       (62868963600000000000, 7200)]⟩
+
 example : ZoneOK paris2024 := by decide
 example : WholeSeconds paris2024 := by decide
 example : EndsBefore paris2024 instEnd := by decide
 example : ZoneOK monrovia1972 := by decide
 example : WholeSeconds monrovia1972 := by decide
 example : ¬ GapMinuteAligned monrovia1972 := by decide
+
+example : ¬ ZoneOK lisbon1992 := by decide
+example : ZoneOrdered lisbon1992 := by decide
+example : ZoneOrdered paris2024 := by decide
+example : WholeSeconds lisbon1992 := by decide
+example : EndsBefore lisbon1992 instEnd := by decide
+/-- the first valid time after the gap, 02:00, is shown at 00:00Z and again at 01:00Z -/
+example : fromLocal lisbon1992 62853242400000000000 = [62853235200000000000, 62853238800000000000] := by
+  decide
+/-- the former finding class `zone-not-ok` is not empty there -/
+example : gapLandsInFold lisbon1992 62853238800000000000 = true := by decide
+
+/-- non-vacuity of the `ZoneOrdered` theorems where `ZoneOK` fails — the witness of the former
+finding `zone-not-ok` (`tz.datetime Europe/Lisbon 727468:3600000000000`): 1992-09-27 01:00 in Lisbon
+does not exist; `datetime` answers 00:00 UTC, the first valid instant (02:00 +02; it answered
+01:00 UTC = 02:00 +01 before /repo e1e5204); with a sub-second phase the phase is kept; 01:30 likewise;
+the ambiguous 02:00 itself, when REQUESTED, is still mapped to its later instant 01:00 UTC -/
+theorem datetime_gap_then_fold_witness :
+    datetime lisbon1992 62853238800000000000 = .ok 62853235200000000000 ∧
+    FirstValidAfter lisbon1992 62853238800000000000 62853235200000000000 ∧
+    datetime lisbon1992 62853238800000000001 = .ok 62853235200000000001 ∧
+    datetime lisbon1992 62853240600000000000 = .ok 62853235200000000000 ∧
+    datetime lisbon1992 62853242400000000000 = .ok 62853238800000000000 := by
+  refine ⟨?_, ?_, ?_, ?_, ?_⟩
+  · exact datetime_gap_value_ordered (z := lisbon1992) (by decide) (by decide) (by decide)
+      (by decide : gapOf lisbon1992 62853238800000000000 =
+        some (62853235200000000000, 62853238800000000000, 62853242400000000000))
+  · exact (firstValidAfter_of_gapOf (z := lisbon1992) (by decide)
+      (by decide : gapOf lisbon1992 62853238800000000000 =
+        some (62853235200000000000, 62853238800000000000, 62853242400000000000))).1
+  · exact datetime_gap_value_ordered (z := lisbon1992) (by decide) (by decide) (by decide)
+      (by decide : gapOf lisbon1992 62853238800000000001 =
+        some (62853235200000000000, 62853238800000000000, 62853242400000000000))
+  · exact datetime_gap_value_ordered (z := lisbon1992) (by decide) (by decide) (by decide)
+      (by decide : gapOf lisbon1992 62853240600000000000 =
+        some (62853235200000000000, 62853238800000000000, 62853242400000000000))
+  · exact datetime_of_some (by decide)
 
 /-- 1972-01-07 00:00 in Monrovia does not exist; the gap ends at 00:44:30 (off the minute grid);
 `datetime` now answers the first valid instant 00:44:30 UTC (it answered 00:45:00 UTC before the
@@ -225,19 +391,33 @@ theorem datetime_mono_false :
         some (63847530000000000000, 63847533600000000000, 63847537200000000000))
 
 /-- true form 1 (what the evaluator needs): the smaller argument exists or is a whole second
-(every bound the evaluator produces is a whole minute or an existing local time) -/
+(every bound the evaluator produces is a whole minute or an existing local time); `ZoneOrdered`
+tables (a fold may follow a gap directly) -/
+theorem datetime_mono_aligned_ordered {z : Zone} (hz : ZoneOrdered z) (hsec : WholeSeconds z)
+    (hend : EndsBefore z instMax) {n n' u u' : Int} (hmin : instMin ≤ n) (hle : n ≤ n')
+    (hn : n % nsPerSec = 0 ∨ Valid z n)
+    (hu : datetime z n = .ok u) (hu' : datetime z n' = .ok u') : u ≤ u' :=
+  OH.Proofs.Tz.datetime_mono_aligned hz.sorted hz.ordered hsec hend hmin hle
+    (hn.imp id (valid_iff_latest_of_sorted hz.sorted n).mp) hu hu'
+
+/-- true form 2: both arguments have the same phase within the second (any `ZoneOrdered` zone) -/
+theorem datetime_mono_congr_ordered {z : Zone} (hz : ZoneOrdered z) (hend : EndsBefore z instMax)
+    {n n' u u' : Int} (hmin : instMin ≤ n) (hle : n ≤ n') (hc : (n' - n) % nsPerSec = 0)
+    (hu : datetime z n = .ok u) (hu' : datetime z n' = .ok u') : u ≤ u' :=
+  OH.Proofs.Tz.datetime_mono_congr hz.sorted hz.ordered hend hmin hle hc hu hu'
+
+/-- true form 1 for `ZoneOK` tables -/
 theorem datetime_mono_aligned {z : Zone} (hz : ZoneOK z) (hsec : WholeSeconds z)
     (hend : EndsBefore z instMax) {n n' u u' : Int} (hmin : instMin ≤ n) (hle : n ≤ n')
     (hn : n % nsPerSec = 0 ∨ Valid z n)
     (hu : datetime z n = .ok u) (hu' : datetime z n' = .ok u') : u ≤ u' :=
-  OH.Proofs.Tz.datetime_mono_aligned hz.sorted hz.spaced hsec hend hmin hle
-    (hn.imp id (valid_iff_latest hz n).mp) hu hu'
+  datetime_mono_aligned_ordered hz.toOrdered hsec hend hmin hle hn hu hu'
 
 /-- true form 2: both arguments have the same phase within the second (any `ZoneOK` zone) -/
 theorem datetime_mono_congr {z : Zone} (hz : ZoneOK z) (hend : EndsBefore z instMax)
     {n n' u u' : Int} (hmin : instMin ≤ n) (hle : n ≤ n') (hc : (n' - n) % nsPerSec = 0)
     (hu : datetime z n = .ok u) (hu' : datetime z n' = .ok u') : u ≤ u' :=
-  OH.Proofs.Tz.datetime_mono_congr hz.sorted hz.spaced hend hmin hle hc hu hu'
+  datetime_mono_congr_ordered hz.toOrdered hend hmin hle hc hu hu'
 
 /-- on existing local times `datetime` is strictly increasing -/
 theorem datetime_strictMono_valid {z : Zone} (hz : ZoneOK z) {n n' u u' : Int} (hlt : n < n')
@@ -254,7 +434,7 @@ theorem datetime_strictMono_valid {z : Zone} (hz : ZoneOK z) {n n' u u' : Int} (
       rw [datetime_of_some hl] at hu
       rw [datetime_of_some hl'] at hu'
       cases hu; cases hu'
-      exact latest_strictMono hz.sorted hz.spaced hlt hl hl'
+      exact latest_strictMono hz.sorted hz.toOrdered.ordered hlt hl hl'
 
 /-! ## panic freedom of the loop -/
 
@@ -276,7 +456,7 @@ theorem datetime_steps_le_2880 {z : Zone} (hz : ZoneOK z) {n : Int} (hn : ¬ Val
   have hb : offsetsBounded z = true := by
     have h := hz
     unfold ZoneOK zoneOK at h; simp only [Bool.and_eq_true] at h; exact h.1.2
-  obtain ⟨k, h1, h2, h3⟩ := datetime_steps_le hz.sorted hz.spaced hb hl
+  obtain ⟨k, h1, h2, h3⟩ := datetime_steps_le hz.sorted hz.toOrdered.ordered hb hl
   refine ⟨k, h1, ?_, (valid_iff_latest hz _).mpr h3⟩
   intro j hj hv
   exact (valid_iff_latest hz _).mp hv (h2 j hj)
@@ -347,14 +527,16 @@ theorem nextChange_localized_error {env : Env} {z : Zone} {t : Int} {p : String}
 
 /-! ## returned interval bounds never go backwards -/
 
-/-- FULL statement, for every `ZoneOK` table with transitions on whole seconds (every chrono-tz
-table): the mapped intervals are ordered like the naive ones.  `Ordered l` (each naive interval has
-`start ≤ stop`, each interval ends before the later ones start) is the tiling property of the naive
-iterator, C02 Layer A — a hypothesis here, checked on the implementation's output by the drivers.
+/-- FULL statement, for every `ZoneOrdered` table with transitions on whole seconds (every chrono-tz
+table but the few whose local spans are out of order, see notes/C09.md): the mapped intervals are
+ordered like the naive ones — also across a gap directly followed by a fold.  `Ordered l` (each
+naive interval has `start ≤ stop`, each interval ends before the later ones start) is the tiling
+property of the naive iterator, C02 Layer A — a hypothesis here, checked on the implementation's
+output by the drivers.
 (Before the walk back was added to `datetime` this needed `GapMinuteAligned z` and failed in
 Africa/Monrovia 1972: `00:45:00Z .. 00:44:45Z`.) -/
-theorem bounds_never_go_backwards {env : Env} {z : Zone} {f t : Int} {l out : List Interval}
-    (hz : ZoneOK z) (hsec : WholeSeconds z) (hend : EndsBefore z instMax)
+theorem bounds_never_go_backwards_ordered {env : Env} {z : Zone} {f t : Int} {l out : List Interval}
+    (hz : ZoneOrdered z) (hsec : WholeSeconds z) (hend : EndsBefore z instMax)
     (hf : instMin ≤ naive z f)
     (hl : iterRangeG env (min instEnd (naive z f)) (min instEnd (naive z t)) = .ok l)
     (hord : Ordered l) (hout : mapIntervals z l = .ok out) : Ordered out := by
@@ -377,8 +559,23 @@ theorem bounds_never_go_backwards {env : Env} {z : Zone} {f t : Int} {l out : Li
     have hss := hord.1 iv hiv
     exact ⟨⟨by omega, key f _ c1⟩, ⟨by omega, key t _ c2⟩⟩
   exact mapIntervals_ordered (fun x => instMin ≤ x ∧ (x % nsPerSec = 0 ∨ Valid z x))
-    (fun a b ua ub hab hCa hua hub => datetime_mono_aligned hz hsec hend hCa.1 hab hCa.2 hua hub)
+    (fun a b ua ub hab hCa hua hub => datetime_mono_aligned_ordered hz hsec hend hCa.1 hab hCa.2 hua hub)
     hout hC hord
+
+/-- the `ZoneOK` instance -/
+theorem bounds_never_go_backwards {env : Env} {z : Zone} {f t : Int} {l out : List Interval}
+    (hz : ZoneOK z) (hsec : WholeSeconds z) (hend : EndsBefore z instMax)
+    (hf : instMin ≤ naive z f)
+    (hl : iterRangeG env (min instEnd (naive z f)) (min instEnd (naive z t)) = .ok l)
+    (hord : Ordered l) (hout : mapIntervals z l = .ok out) : Ordered out :=
+  bounds_never_go_backwards_ordered hz.toOrdered hsec hend hf hl hord hout
+
+/-- across the former `zone-not-ok` witness the bounds are ordered: Lisbon 1992-09-27 `01:30-02:00`
+(start skipped, end ambiguous) is mapped to `00:00Z .. 01:00Z` -/
+theorem bounds_gap_then_fold_witness :
+    datetime lisbon1992 62853240600000000000 = .ok 62853235200000000000 ∧
+    datetime lisbon1992 62853242400000000000 = .ok 62853238800000000000 :=
+  ⟨datetime_gap_then_fold_witness.2.2.2.1, datetime_gap_then_fold_witness.2.2.2.2⟩
 
 /-- the former witness of the violation, Monrovia `1972-01-07 00:00 .. 00:44:45`, is now ordered:
 `00:44:30Z .. 00:44:45Z` -/
@@ -399,7 +596,7 @@ theorem unalignedGap_class {z : Zone} (hz : ZoneOK z) (hend : EndsBefore z instM
   have hn : ¬ Valid z n := by
     intro hv
     apply (valid_iff_latest hz n).mp hv
-    apply (gapOf_isSome_iff hz.sorted hz.spaced n).mp
+    apply (gapOf_isSome_iff hz.sorted hz.toOrdered.ordered n).mp
     unfold unalignedGap at h
     split at h
     · rename_i heq; rw [heq]; rfl
@@ -444,17 +641,19 @@ theorem backwardsInGap_false {z : Zone} {a b : Int} (hsec : WholeSeconds z) (hws
     simp only [nsPerSec] at *; omega
   · rfl
 
-/-- class `zone-not-ok` never occurs for a `ZoneOK` table -/
+/-- the FORMER class `zone-not-ok` (no longer a finding class, not used by the driver: /repo e1e5204
+repaired it, `datetime_gap_first_valid_ordered`) never occurs for a `ZoneOK` table -/
 theorem gapLandsInFold_false {z : Zone} (hz : ZoneOK z) (n : Int) : gapLandsInFold z n = false := by
   unfold gapLandsInFold
   split
   · rename_i T a b hgap
-    have hnone : latest? z n = none := (gapOf_isSome_iff hz.sorted hz.spaced n).mp (by rw [hgap]; rfl)
-    obtain ⟨T1, a1, b1, g1, _, _, _, _, g6⟩ := gap_of_none hz.sorted hz.spaced hnone
+    have hnone : latest? z n = none :=
+      (gapOf_isSome_iff hz.sorted hz.toOrdered.ordered n).mp (by rw [hgap]; rfl)
+    obtain ⟨T1, a1, b1, g1, _, _, _, _, _, g6⟩ := gap_of_none hz.sorted hz.toOrdered.ordered hnone
     rw [hgap] at g1
     cases g1
     have := emod_sec_lt (n - b)
-    rw [g6 _ (emod_sec_nonneg _) (by have := secLt; omega)]
+    rw [g6 hz.spaced _ (emod_sec_nonneg _) (by have := secLt; omega)]
     simp
   · rfl
 
@@ -486,7 +685,7 @@ theorem D16_class {z : Zone} (hz : ZoneOK z) (hend : EndsBefore z instMax) {a b 
 /-- the class predicate's gap test is exact -/
 theorem gapOf_isSome_iff_not_valid {z : Zone} (hz : ZoneOK z) (n : Int) :
     (gapOf z n).isSome = true ↔ ¬ Valid z n := by
-  rw [gapOf_isSome_iff hz.sorted hz.spaced, valid_iff_latest hz]
+  rw [gapOf_isSome_iff hz.sorted hz.toOrdered.ordered, valid_iff_latest hz]
   simp
 
 end OH.Props.C09
